@@ -955,6 +955,9 @@ func TestCoordinator(t *testing.T) {
 		reported = append(reported, key)
 		exit = 1
 	}
+	if c.counters["capped_scenarios"] > 0 {
+		c.exhaustive = false
+	}
 	if len(c.infraErrors) > 0 {
 		c.exhaustive = false
 		for i, e := range c.infraErrors {
